@@ -1327,6 +1327,9 @@ func build(tier string) []*vkit.Scenario {
 		case len(l) <= 2, len(l) == 3 && nD <= 1:
 			p = 1
 		}
+		if !thorough && len(l) == 2 && nD == 1 {
+			p = 1 // SetDeadline arms two timers: the two-operation lists with it are the heavy ones
+		}
 		if thorough && len(l) == 3 && nD <= 1 {
 			p = 2
 		}
